@@ -847,7 +847,7 @@ type replayCase struct {
 // Returns whether the replayed bytes were accepted as application data.
 func runReplay(rc replayCase) (accepted bool, detail string, recLen int, transcriptRepeats bool, err error) {
 	w := newWorld(history{})
-	s := w.establish(true)
+	s := w.establish(true, false)
 	if s == nil || s.key == nil {
 		return false, "", 0, false, errors.New("could not establish an encrypted session")
 	}
